@@ -597,19 +597,20 @@ theorem C14_daemon_exactly_once (cfg : Daemon.Cfg) (s : Daemon.St) (g : Ghost) (
     exact absurd (h.t0 this).2.2.1 hne
 
 /-- **(b) What a committed bounce is**: every injection after which the monitor accepted the unlink
-went, with the envelope `bounceEnvelope` prescribes for the sender stored in `info/<m>` (never for a
-`#@[]` message), carried the whole bounce file of that moment inside its text, and that file names one
-record per appended text; unless a machine crash rewrote `bounce/<m>` (the documented exemption
+went, with the envelope `bounceEnvelope` prescribes, to the envelope sender *that qmail-queue accepted
+for the message* (= the sender stored in `info/<m>`; never for a `#@[]` message), carried the whole
+bounce file of that moment inside its text, and that file names one record per appended text; unless a machine crash rewrote `bounce/<m>` (the documented exemption
 `lost`), the file was the concatenation of the appended texts, so each of them is inside the notice. -/
 theorem C14_daemon_committed (cfg : Daemon.Cfg) (s : Daemon.St) (g : Ghost) (hr : GReach cfg s g) (m : Nat)
     (x : Sent) (hx : x ∈ (g m).committed) :
     x.sender ≠ DBSENDER ∧ x.env = Daemon.bounceEnvelope cfg x.sender ∧ Daemon.isInfix x.file x.body = true ∧
     x.paras.length = x.parts.length ∧
+    (∀ sd r, (s.msg m).accepted = some (sd, r) → x.sender = sd ∧ x.env = Daemon.bounceEnvelope cfg sd) ∧
     (∀ info, (s.msg m).info = some info → x.sender = senderOf info) ∧
     ((s.msg m).lost = false → x.parts ≠ [] ∧ x.file = fileOf x.parts ∧ ∀ p ∈ x.parts, Daemon.isInfix p x.body = true) := by
   have h := (greach_inv cfg s g hr).2 m
   have hok := h.c6 x (h.c6a x hx)
-  refine ⟨hok.notdb, hok.env, hok.inf, hok.len, hok.sender, ?_⟩
+  refine ⟨hok.notdb, hok.env, hok.inf, hok.len, fun sd r ha => ⟨hok.acc sd r ha, by rw [hok.env, hok.acc sd r ha]⟩, hok.sender, ?_⟩
   intro hl
   obtain ⟨h1, h2⟩ := hok.intact hl
   refine ⟨h1, h2, fun p hp => isInfix_trans p x.file x.body ?_ hok.inf⟩
@@ -765,7 +766,8 @@ example : ((gacceptAll dcfg0 ginit (pre0 [115] ++ [.bounceInject 7 true [70, 0, 
     (sg.1.msg 7).noted == [(.loc, 0)] && (sg.1.msg 7).inFile == [] && (sg.1.msg 7).bounced == [(.loc, 0)] &&
     (sg.1.msg 7).bounce == none && (sg.1.msg 7).info == none &&
     (sg.2 7).committed.map (·.file) == [para0] && (sg.2 7).committed.map (·.paras) == [[(.loc, 0)]] &&
-    (sg.2 7).committed.map (·.parts) == [[para0]]) = some true := by decide
+    (sg.2 7).committed.map (·.parts) == [[para0]] && (sg.2 7).committed.map (·.sender) == [[115]] &&
+    (sg.1.msg 7).accepted == some ([115], [[97]])) = some true := by decide
 /-- qmail-queue refuses: the file stays, nothing is committed, the unlink is refused -/
 example : ((gacceptAll dcfg0 ginit (pre0 [115] ++ [.bounceInject 7 false [] []])).map fun sg =>
     (sg.1.msg 7).inFile == [(.loc, 0)] && (sg.1.msg 7).bounce.isSome && (sg.2 7).committed.length == 0 &&
